@@ -382,6 +382,13 @@ func (db *SingleBucketBackend) PutObject(
 		if !closed {
 			f.Close()
 		}
+
+		// An upload that fails must not leave a partial object (or an object
+		// without its metadata) behind:
+		if err != nil {
+			db.fs.Remove(objectFilePath)
+			removeEmptyDirs(db.fs, ".", path.Dir(filepath.ToSlash(objectFilePath)))
+		}
 	}()
 
 	hasher := md5.New()
